@@ -261,6 +261,10 @@ def check_confinement(chk, tu, all_funcs):
         for n in walk(body):
             if n.get('kind') == 'VarDecl' and n.get('storageClass') == 'static':
                 statics[n['id']] = n.get('name')
+        parents = {}
+        for n in walk(body):
+            for c_ in kids(n):
+                parents[id(c_)] = n
         for n in walk(body):
             k = n.get('kind')
             target = None
@@ -281,6 +285,34 @@ def check_confinement(chk, tu, all_funcs):
                                '%s (reachable from the worker threads) writes the %s variable %s at %s: concurrent workers race on it and the '
                                'output depends on the schedule' % (fn, 'function-static' if is_static else 'file-scope', rd.get('name'), astdb.loc_str(n)),
                                '%s:static-write:%s' % (fn, rd.get('name')), astdb.loc_str(n))
+            if k == 'DeclRefExpr' and n.get('referencedDecl', {}).get('kind') == 'VarDecl':
+                # a pointer to mutable static storage that leaves the expression (address taken, or an array that decays to a pointer
+                # which is stored / passed on): whoever holds the pointer writes shared storage from several workers
+                rd = n['referencedDecl']
+                is_static = rd.get('id') in statics
+                is_global = rd.get('name') in t.vars and rd.get('id') == t.vars[rd['name']].get('id')
+                if is_static or is_global:
+                    decl = t.vars.get(rd.get('name')) if is_global else None
+                    qt = astdb.qtype(n)
+                    elem_const = bool(re.match(r'\s*const\b', qt)) or bool(re.search(r'\bconst\s*(\[|$)', qt.split('*')[0] if '[' in qt else qt))
+                    par = parents.get(id(n))
+                    while par is not None and par.get('kind') == 'ParenExpr':
+                        par = parents.get(id(par))
+                    escapes = False
+                    if par is not None and par.get('kind') == 'UnaryOperator' and par.get('opcode') == '&':
+                        escapes = True
+                    if par is not None and par.get('kind') == 'ImplicitCastExpr' and par.get('castKind') == 'ArrayToPointerDecay':
+                        gp = parents.get(id(par))
+                        while gp is not None and gp.get('kind') == 'ParenExpr':
+                            gp = parents.get(id(gp))
+                        escapes = not (gp is not None and gp.get('kind') == 'ArraySubscriptExpr' and kids(gp)[0] is par) and \
+                            not (gp is not None and gp.get('kind') == 'CallExpr' and (astdb.callee_name(gp) or '') in ('fputs', 'fprintf', 'printf', 'strlen', 'strcmp', 'fwrite', 'stringBuilderAppend'))
+                    if escapes and not elem_const:
+                        chk.fail('R09.2', '%s:address-of:%s' % (fn, rd.get('name')),
+                                 '%s (reachable from the worker threads) lets a pointer to the mutable %s variable %s leave the expression at %s '
+                                 '(type %s): the storage is shared by all workers, so whatever is written through the pointer races and the output '
+                                 'depends on the schedule' % (fn, 'function-static' if is_static else 'file-scope', rd.get('name'), astdb.loc_str(n), qt),
+                                 '%s:static-address:%s' % (fn, rd.get('name')), astdb.loc_str(n))
             if k == 'CallExpr':
                 cn = astdb.callee_name(n)
                 if cn in NON_REENTRANT:
